@@ -426,7 +426,7 @@ func c08(c *Ctx) {
 		// announced id
 		okID := false
 		core.Calls(H, func(ci ssa.CallInstruction) {
-			if strings.HasSuffix(core.CalleeID(ci), ".PutUint16") {
+			if strings.HasSuffix(core.CalleeID(ci), ".PutUint16") || strings.HasSuffix(core.CalleeID(ci), ".AppendUint16") {
 				a := ci.Common().Args
 				v := a[len(a)-1]
 				if _, f, ok := core.LoadedField(v); ok && f == "Send" {
@@ -628,6 +628,51 @@ func c08(c *Ctx) {
 				}
 			}
 		})
+		// library form: slices.SortFunc(list, func(a, b) int { return cmp.Compare(LogDist(a, t), LogDist(b, t)) })
+		core.Calls(cf, func(ci ssa.CallInstruction) {
+			if id := core.CalleeID(ci); id != "slices.SortFunc" && id != "slices.SortStableFunc" {
+				return
+			}
+			mc, ok := ci.Common().Args[1].(*ssa.MakeClosure)
+			if !ok {
+				return
+			}
+			cmpf := mc.Fn.(*ssa.Function)
+			if len(cmpf.Params) != 2 {
+				return
+			}
+			okAll := len(core.Returns(cmpf)) > 0
+			for _, ret := range core.Returns(cmpf) {
+				var x, y ssa.Value
+				switch v := ret.Results[0].(type) {
+				case *ssa.Call:
+					if core.CalleeID(v) == "cmp.Compare" && len(v.Call.Args) == 2 {
+						x, y = v.Call.Args[0], v.Call.Args[1]
+					}
+				case *ssa.BinOp:
+					if v.Op == token.SUB {
+						x, y = v.X, v.Y
+					}
+				}
+				cx, okx := x.(*ssa.Call)
+				cy, oky := y.(*ssa.Call)
+				if !okx || !oky || core.CalleeID(cx) != enodeLogDist || core.CalleeID(cy) != enodeLogDist {
+					okAll = false
+					continue
+				}
+				of := func(call *ssa.Call, pa *ssa.Parameter) bool {
+					return core.Derives(call.Call.Args[0], func(v ssa.Value) bool { return v == ssa.Value(pa) }, core.DeriveOpts{ThroughCalls: true})
+				}
+				sameTarget := core.SameExpr(core.Unwrap(cx.Call.Args[1]), core.Unwrap(cy.Call.Args[1])) || core.AccessPath(cx.Call.Args[1]) == core.AccessPath(cy.Call.Args[1]) || bothFromFreeVar(cx.Call.Args[1], cy.Call.Args[1])
+				if !(of(cx, cmpf.Params[0]) && of(cy, cmpf.Params[1]) && !of(cx, cmpf.Params[1]) && !of(cy, cmpf.Params[0]) && sameTarget) {
+					okAll = false
+					detail = "the comparator does not order by ascending log-distance of its first vs its second argument to one target"
+				}
+			}
+			if okAll {
+				okCmp = true
+			}
+		})
 		r.Check(okCmp, "R3.order-exclusion", cname+" comparator", p.Pos(cf.Pos()), "sorted by LogDist(node[i], id) < LogDist(node[j], id)", detail)
 		wUnsorted := unsortedReturn(cf)
 		r.Check(wUnsorted == nil, "R3.order-exclusion", cname+" sorted-on-every-return", p.Pos(cf.Pos()), "every non-nil list returned passed the sort", "a list can be returned without having been sorted (callers take its head as 'the closest'): "+p.PathString(wUnsorted))
@@ -664,11 +709,27 @@ func c08(c *Ctx) {
 				}
 			}
 		}
+		// library form of the cut: slices.Delete(list, i, i+1)
+		var remIdx, remList ssa.Value
+		if removal == nil {
+			core.Calls(H, func(ci ssa.CallInstruction) {
+				cc, ok := ci.(*ssa.Call)
+				if !ok || core.CalleeID(cc) != "slices.Delete" || len(cc.Call.Args) != 3 {
+					return
+				}
+				if bo, ok := cc.Call.Args[2].(*ssa.BinOp); ok && bo.Op == token.ADD && bo.X == cc.Call.Args[1] {
+					if k, isC := core.ConstInt(bo.Y); isC && k == 1 {
+						removal, remIdx, remList = cc, cc.Call.Args[1], cc.Call.Args[0]
+					}
+				}
+			})
+		} else if s0, ok := removal.Call.Args[0].(*ssa.Slice); ok {
+			remIdx, remList = s0.High, s0.X
+		}
 		okRem := removal != nil && core.InstrGuarded(removal, sameID, nil) == nil
 		if removal != nil && !okRem {
 			// index form: i := slices.IndexFunc(list, func(x) bool { return x.ID() == requester.ID() }); if i >= 0 { cut list[i] }
-			s0 := removal.Call.Args[0].(*ssa.Slice)
-			if ic, ok := core.Unwrap(s0.High).(*ssa.Call); ok && core.CalleeID(ic) == "slices.IndexFunc" && len(ic.Call.Args) == 2 {
+			if ic, ok := core.Unwrap(remIdx).(*ssa.Call); ok && core.CalleeID(ic) == "slices.IndexFunc" && len(ic.Call.Args) == 2 {
 				if mc, ok := ic.Call.Args[1].(*ssa.MakeClosure); ok {
 					pred := mc.Fn.(*ssa.Function)
 					okPred := len(core.Returns(pred)) > 0
@@ -696,7 +757,7 @@ func c08(c *Ctx) {
 							return a == ssa.Value(ic) && isC && ((op == token.GEQ && k == 0) || (op == token.GTR && k == -1) || (op == token.NEQ && k == -1))
 						})
 					})
-					if okPred && ic.Call.Args[0] == s0.X && core.InstrGuarded(removal, nonNeg, nil) == nil {
+					if okPred && ic.Call.Args[0] == remList && core.InstrGuarded(removal, nonNeg, nil) == nil {
 						okRem = true
 					}
 				}
@@ -765,7 +826,22 @@ func bothFromFreeVar(a, b ssa.Value) bool {
 
 // framesForVersion: f (or a function it calls) uses the given LEB128 codec function.
 func framesForVersion(f *ssa.Function, codec string) bool {
-	return core.ReachesInstr(f, 2, func(in ssa.Instruction) bool { return core.IsCallTo(in, codec) })
+	// the standard library's uvarint is the same encoding as unsigned LEB128
+	alts := []string{codec}
+	if strings.HasSuffix(codec, "leb128.EncodeUint32") {
+		alts = append(alts, "encoding/binary.AppendUvarint", "encoding/binary.PutUvarint")
+	}
+	if strings.HasSuffix(codec, "leb128.DecodeUint32") {
+		alts = append(alts, "encoding/binary.Uvarint")
+	}
+	return core.ReachesInstr(f, 2, func(in ssa.Instruction) bool {
+		for _, a := range alts {
+			if core.IsCallTo(in, a) {
+				return true
+			}
+		}
+		return false
+	})
 }
 
 // isResultThroughCell: v is call's result #0, directly or via a captured/spilled cell.
